@@ -6,7 +6,7 @@
    lengths; [trun_state v (tinit maxPer maxTotal) ops] is the state and the callback log after
    the history [ops] of Assemble / FlushWithOptions / FlushAll calls on any connections.
    Variant [fixedv] = the repository with the four C11 repairs, [origv] = the unchanged tree. *)
-From GP Require Import Base C11Common C11TModel C11RModel C11LogProofs C11TProofs C11RProofs.
+From GP Require Import Base C11Common C11TModel C11RModel C11LogProofs C11TProofs C11RProofs C11ROnce.
 Open Scope Z_scope.
 
 (* ================================================================== tcpassembly *)
@@ -137,6 +137,17 @@ Theorem C11_r_reachable_inv : forall v cfg ops, v_saved v = true -> v_hpages v =
 Proof. intros v cfg ops Hs Hh. apply rrun_state_inv; [exact Hs|exact Hh|apply rinit_inv]. Qed.
 Print Assumptions C11_r_flushall.
 Print Assumptions C11_r_reachable_inv.
+
+(* C11_once (repaired model): if no call of the history panicked in the model, the callback log
+   is accepted by the lifecycle automaton (C11_once_* above say what that means) and the streams
+   still open are exactly those of the connections not yet closed in both directions; with
+   C11_r_flushall, after FlushAll no stream is open: every stream created has its one Complete *)
+Theorem C11_r_once : forall v cfg ops, v_saved v = true -> v_hpages v = true ->
+  rs_dead (fst (rrun_state v (rinit cfg) ops)) = false ->
+  exists ls, lrun l0 (snd (rrun_state v (rinit cfg) ops)) = Some ls /\
+             l_open ls = osids (rs_conns (fst (rrun_state v (rinit cfg) ops))).
+Proof. exact r_once. Qed.
+Print Assumptions C11_r_once.
 
 (* non-vacuity: two connections, KeepFrom on every call, one stream declines removal, a FIN in one
    direction, FlushAll: nothing in use, the declining stream's connection stays, both completed *)
